@@ -133,15 +133,18 @@ Fixpoint class_index (k : Z) (cls : list Z) (tbl : list (string * list Z)) (i : 
   | (s, ks) :: r => if zl_eqb cls (ascii_bytes s) && existsb (Z.eqb k) ks then i else class_index k cls r (i + 1)%Z
   end.
 (* kinds: 1 thrift list pre-allocation (abort, parquet); 2 declared-length allocation in the IPC readers (abort);
-   3 Avro OCF reader no-progress loop (timeout); 10+i panic class i; 0 unknown *)
+   3 Avro OCF reader no-progress loop (timeout); 4 parquet SchemaElement.num_children pre-allocation (abort);
+   5 Avro block decompression to a declared length beyond the allocation cap (abort); 10+i panic class i; 0 unknown *)
 Definition classify (x out : list (list Z)) : Z :=
   let k := argz 0 x in
   let bs := bytes_of (arg 1 x) in
   let c := out_code out in
   if Z.eqb c 4 then
-    (if Z.eqb k 5 then zb (has_oversize_list bs)
-     else if existsb (Z.eqb k) pq_kinds then zb (has_oversize_list (pq_footer bs))
+    (if existsb (Z.eqb k) pq_kinds then
+       let foot := if Z.eqb k 5 then bs else pq_footer bs in
+       if has_oversize_list foot then 1%Z else if schema_children_oversize foot then 4%Z else 0%Z
      else if existsb (Z.eqb k) ipc_kinds then 2%Z
+     else if Z.eqb k 6 then 5%Z
      else 0%Z)
   else if Z.eqb c 3 then (if Z.eqb k 6 then 3%Z else 0%Z)
   else if Z.eqb c 2 then class_index k (nth 2 out []) known_panic_classes 10%Z
